@@ -43,7 +43,7 @@ def exhaustive_count(nbod, nj, masses, jtypes, with_self=True):
 
 def random_graph(rng, nbmax, big):
     nbod = rng.randint(1, nbmax)
-    pm0 = rng.choice([0.0, 0.1, 0.25, 0.5])
+    pm0 = rng.choice([0.0, 0.05, 0.15, 0.3])
     pbase = rng.choice([0.0, 0.1, 0.3])
     ploop = rng.choice([0.0, 0.1, 0.3])
     bodies = [(0 if rng.random() < pm0 else rng.randint(1, 4), 1 if rng.random() < pbase else 0) for _ in range(nbod)]
@@ -196,11 +196,13 @@ def run(ctx):
     batch(corpus + input_error_cases(), 'corpus+input-errors')
 
     # ---- exhaustive families
-    M3 = (0, 1, 2); T4 = (0, 2, 3, 4); T5 = (0, 1, 2, 3, 4)
+    M3 = (0, 1, 2); M2 = (0, 1); T4 = (0, 2, 3, 4); T5 = (0, 1, 2, 3, 4); T3 = (0, 2, 3); T2 = (0, 2)
+    # (bodies, joints, masses, joint types, self/Ground-Ground joints included)
     fams = [(1, 0, M3, T5, True), (1, 1, M3, T5, True), (1, 2, M3, T5, True), (2, 0, M3, T5, True), (2, 1, M3, T5, True),
-            (2, 2, M3, T4, True), (3, 0, M3, T5, True), (3, 1, M3, T4, True)]
+            (2, 2, M3, T4, True), (3, 0, M3, T5, True), (3, 1, M3, T4, True),
+            (3, 2, M2, T3, False), (2, 3, M2, T2, False)]
     if thorough:
-        fams += [(1, 3, M3, T4, True), (2, 2, M3, T5, True), (3, 2, (0, 1, 2), (0, 2, 3), False)]
+        fams += [(1, 3, M3, T4, True), (2, 2, M3, T5, True), (3, 2, M3, T3, False), (2, 3, M2, T3, False), (4, 2, M2, T2, False)]
     exh = []
     for (nbod, nj, ms, ts, ws) in fams:
         lines = list(exhaustive(nbod, nj, ms, ts, ws))
